@@ -186,16 +186,16 @@ def areq(srv, *a, **kw):
         raise vf.NoVerdict("admin request failed: %s %s" % (a[:2], ex))
 
 
-def send(srv, dsn, ep, sql, token):
+def send(srv, dsn, ep, sqls, token):
     try:        # never retried: a statement may have run although its answer was lost
         if ep == "sql":
-            r = srv.req("POST", "/dsns/%s/tables/@sql" % dsn, json.dumps(sql), token=token,
+            r = srv.req("POST", "/dsns/%s/tables/@sql" % dsn, json.dumps(sqls[0] if len(sqls) == 1 else sqls), token=token,
                         headers={"Content-Type": "application/json"}, timeout=300)
         else:
             op = "sql" if ep == "tx" else "readrows"
-            r = srv.req("POST", "/dsns/%s/tables/@transaction" % dsn, [{"operation": op, "sql": sql}], token=token, timeout=300)
+            r = srv.req("POST", "/dsns/%s/tables/@transaction" % dsn, [{"operation": op, "sql": q} for q in sqls], token=token, timeout=300)
     except (OSError, http.client.HTTPException) as ex:
-        raise vf.NoVerdict("request to the server failed (%s): %s via %s" % (ex, sql, ep))
+        raise vf.NoVerdict("request to the server failed (%s): %s via %s" % (ex, sqls, ep))
     j = r.json() or {}
     sess = (j.get("server") or {}).get("session")
     return r.status, sess, (j.get("msg") or "")[:200]
@@ -215,7 +215,7 @@ def drive(srv, dsns, tokens, cases, pristine):
         for n, (g, ep) in buckets[k]:
             recs = []
             for w in [NOW] + list(g["required"]):      # the control request first: a statement that does not run for
-                status, sess, msg = send(srv, name, ep, g["sql"], tokens[uname(w)])    # the full profile decides nothing
+                status, sess, msg = send(srv, name, ep, g["sqls"], tokens[uname(w)])    # the full profile decides nothing
                 changed = db_project(path) != pristine
                 if changed:
                     db_restore(path)
@@ -262,7 +262,7 @@ def read_server_log(srv, upto, wait=20):
 
 # ------------------------------------------------------------------ contract evaluation (TLC)
 
-REQ_FIELDS = ("rec", "ep", "shape", "w", "status", "executed", "changed", "checks", "ctl", "xplain", "xopen", "xwrite")
+REQ_FIELDS = ("rec", "ep", "shape", "w", "status", "executed", "changed", "checks", "ctl", "xplain", "xopen", "xwrite", "execk")
 X_FIELDS = ("rec", "id", "shape", "parsed", "kind", "usages")
 
 
@@ -295,6 +295,7 @@ def finalize(groups, log):
             r = dict(r)
             r["executed"] = bool(ent and ent["exec"])
             r["exec_sql"] = ent["exec"][-1] if ent and ent["exec"] else ""
+            r["execk"] = [(q.split() or [""])[0].upper() for q in ent["exec"]] if ent else []
             r["checks"] = ent["checks"] if ent else []
             r["ctl"] = ctl
             r["xplain"], r["xopen"], r["xwrite"] = False, [], []
@@ -334,7 +335,7 @@ def run():
                 shutil.copy(g[key], cp)
                 extra[dst] = cp
             ov = vf.make_overlay(sd, HARNESS, extra=extra)
-            return ov, vf.build_ego(sd, ov)
+            return ov, vf.go_build(ov, ".", os.path.join(sd, "ego"), timeout=3000)   # cold builds on a loaded machine exceed build_ego's 900 s
 
         gen_cfg = "SqlShape_Gen.cfg" if thorough else "SqlShape_Gen1.cfg"
         jobs = {
@@ -376,16 +377,17 @@ def run():
                              "depth2": sum(1 for g in shapes if g["depth"] == 2)}
         # 4. what the real extractor reports for every shape (in-package); TLA+ picks the suspects
         xin, xout = os.path.join(sd, "x-in.ndjson"), os.path.join(sd, "x-out.ndjson")
-        vf.write_ndjson(xin, [{"id": g["id"], "sql": g["sql"], "shape": g["shape"]} for g in shapes])
+        single = [g for g in shapes if g["shape"]["kind"] != "batch"]       # a batch is not one statement: nothing to parse as one
+        vf.write_ndjson(xin, [{"id": g["id"], "sql": g["sql"], "shape": g["shape"]} for g in single])
         vf.run_harness(sd, ov, "./internal/sqlparse/", "TestVerifC15Extract", {"VERIF_IN": xin, "VERIF_OUT": xout}, expect_out=xout)
         xrecs = vf.read_ndjson(xout)
-        if len(xrecs) != len(shapes):
-            raise vf.NoVerdict("extraction harness returned %d of %d records" % (len(xrecs), len(shapes)))
+        if len(xrecs) != len(single):
+            raise vf.NoVerdict("extraction harness returned %d of %d records" % (len(xrecs), len(single)))
         rep = contract(chk, sd, xrecs, "extractor output judged (suspect selection)")
         suspects = set(rep["suspects"])
         vf.log("C15 extraction judged %.0fs: %d suspects" % (time.time() - chk.t0, len(suspects)))
         parsed = {x["id"] for x in xrecs if x["parsed"]}
-        chk.cov["extractor"] = {"parsed": len(parsed), "unparsed": len(shapes) - len(parsed), "suspects": len(suspects)}
+        chk.cov["extractor"] = {"parsed": len(parsed), "unparsed": len(single) - len(parsed), "suspects": len(suspects)}
         # 5. which shapes go to the real server.  thorough: every depth<=1 shape; quick: every statement position with the
         #    basic forms plus every other form in some positions (seeded).  Both: every suspect that is new at depth 2
         #    (its depth-1 prefix is not a suspect), a few suspects per position, a seeded stratified sample of depth 2.
@@ -396,14 +398,16 @@ def run():
         if thorough:
             chosen = {g["id"] for g in d1}
         else:
-            chosen = {g["id"] for g in d1 if g["depth"] == 0 or g["shape"]["plants"][0]["form"] in FEW
-                      or g["shape"]["plants"][0]["pos"] in STRUCT_POS}
+            ctes = [g for g in d1 if g["shape"]["cte"]["on"]]
+            chosen = {g["id"] for g in d1 if (g["depth"] == 0 and not g["shape"]["cte"]["on"])
+                      or (g["depth"] == 1 and (g["shape"]["plants"][0]["form"] in FEW or g["shape"]["plants"][0]["pos"] in STRUCT_POS))}
+            chosen |= {g["id"] for g in rng.sample(ctes, min(16, len(ctes)))}
             rest = collections.defaultdict(list)
             for g in d1:
-                if g["id"] not in chosen:
+                if g["id"] not in chosen and g["depth"] == 1:
                     rest[(g["shape"]["kind"], g["pos"])].append(g)
             for key in sorted(rest):
-                chosen |= {g["id"] for g in rng.sample(rest[key], min(4, len(rest[key])))}
+                chosen |= {g["id"] for g in rng.sample(rest[key], min(3, len(rest[key])))}
         d2 = [g for g in shapes if g["depth"] == 2 and g["id"] in parsed]
         strata = collections.defaultdict(list)
         for g in d2:
@@ -429,6 +433,8 @@ def run():
         replay = os.environ.get("VERIF_REPLAY")
         if replay:              # bin/verif check C15 --replay replays/C15-....json : only that shape, on its endpoint
             rr = json.load(open(replay))["replay"]["record"]
+            rr["shape"].setdefault("cte", {"on": False, "site": "", "name": "", "ref": "", "body": "", "nest": ""})
+            rr["shape"].setdefault("batch", [])
             if skey(rr["shape"]) not in bykey:
                 raise vf.NoVerdict("replay: the shape is not in this tier's bound (depth 2 needs --tier thorough)")
             chosen, deep, eps = {bykey[skey(rr["shape"])]["id"]}, set(), [rr["ep"]]
@@ -436,7 +442,7 @@ def run():
         for gid in sorted(chosen):
             g = byid[gid]
             for ep in eps:
-                if ep == "rows" and g["depth"] == 2 and gid not in deep:
+                if ep == "rows" and ((g["depth"] == 2 and gid not in deep) or g["shape"]["kind"] == "batch"):
                     continue
                 cases.append((g, ep))
         rng.shuffle(cases)
@@ -467,7 +473,7 @@ def run():
         # SQLite's own account of the executed text (control records)
         xp = Explainer()
         for r in flat:
-            if not r["w"]["p"] and r["executed"]:
+            if not r["w"]["p"] and r["executed"] and r["shape"]["kind"] != "batch":
                 e = xp.explain(r["exec_sql"])
                 if e is not None:
                     r["xplain"], r["xopen"], r["xwrite"] = True, e[0], e[1]
@@ -479,8 +485,8 @@ def run():
             raise vf.NoVerdict("specification and SQLite (EXPLAIN) disagree on what is touched, e.g. %s" % json.dumps(ex)[:1500])
         decided = [r for r in flat if flat[r["ctl"] - 1]["executed"] and flat[r["ctl"] - 1]["status"] == 200]
         # vacuity guards: enough of the space is executable, and every demanded permission was really withheld somewhere
-        dec_keys = {(r["shape"]["kind"], r["shape"]["plants"][0]["pos"] if r["shape"]["plants"] else "-") for r in decided}
-        all_keys = {(g["shape"]["kind"], g["pos"]) for g in d1}
+        dec_keys = {(r["shape"]["kind"], bykey[skey(r["shape"])]["pos"]) for r in decided}
+        all_keys = {(g["shape"]["kind"], g["pos"]) for g in d1 if g["id"] in chosen}
         refused = {k for k in all_keys if k[0] in ("create_table", "create_index") and k[1] not in ("-", "as")} | {("delete", "using")}
         missing = sorted(all_keys - refused - dec_keys)
         if missing and not replay:
@@ -515,8 +521,8 @@ def run():
             chk.sample({"kind": "request", **{k: r[k] for k in ("ep", "sql", "w", "status", "executed", "changed", "checks", "xopen", "xwrite")}})
         # 8. binding self-test: a record that ran although a demanded permission was withheld, and a control that ran
         #    without one demanded lookup, must both be rejected
-        cand1 = [r for r in decided if r["w"]["p"] and r["w"] in _req(byid, r) and not r["executed"] and not r["changed"]]
-        cand2 = [r for r in decided if not r["w"]["p"] and r["executed"] and r["checks"]
+        cand1 = [r for r in decided if r["shape"]["kind"] != "batch" and r["w"]["p"] and r["w"] in _req(byid, r) and not r["executed"] and not r["changed"]]
+        cand2 = [r for r in decided if r["shape"]["kind"] != "batch" and not r["w"]["p"] and r["executed"] and r["checks"]
                  and all(d["p"] == "schema" or d in r["checks"] for d in _req(byid, r)) and any(d["p"] != "schema" for d in _req(byid, r))]
         if replay:
             chk.cov["rule"] = "replay of one shape"
